@@ -144,7 +144,19 @@ func containsPintComment(s string) bool {
 	return false
 }
 
+// whole documents that are not a mapping with groups at all
+var tinyDocs = []string{"<<", "foo", "5", "~", "null", "[]", "{}", "- a", "groups", "groups:", "groups: ~", "groups: []", "groups: {}", "groups: x",
+	"? groups\n: []", "!!map {}", "&a groups: []", "groups: &a []\nx: *a", "---", "--- \n...", "%YAML 1.2\n---\ngroups: []", "groups: []\n---\ngroups: []",
+	"groups:\n- name: g\n", "groups:\n- name: g\n  rules:\n", "groups:\n- name: g\n  rules: ~\n", "\ufeffgroups: []", "groups: !!seq []", "groups: !!str x"}
+
 func genCase(t *rapid.T) Case {
+	if rapid.IntRange(0, 24).Draw(t, "tiny") == 0 {
+		src := rapid.SampledFrom(tinyDocs).Draw(t, "tinyDoc")
+		if rapid.Bool().Draw(t, "tinyNL") {
+			src += "\n"
+		}
+		return mkCase(src, rapid.Bool().Draw(t, "tinyLegacy"), []string{"tiny-document"})
+	}
 	d := gen.GenDoc(t, 2, 3)
 	s := gen.NewStyler(t, styles(t))
 	// build tree
